@@ -1001,6 +1001,23 @@ fn check_c09(cases: &[Case], results: &[Option<RunResult>]) -> Vec<Violation> {
                     dup.insert(t.clone());
                 }
             }
+            // ... nor tokens that also arise across a node boundary ("qdye" + "eu" cut as "qdy" /
+            // "eeu"): the token must occur exactly once in the document's white-space-free text
+            let alltext: String = visible_chars(&dom).into_iter().collect();
+            for t in &all {
+                let mut cnt = 0;
+                let mut from = 0;
+                while let Some(p) = alltext[from..].find(t.as_str()) {
+                    cnt += 1;
+                    from += p + t.chars().next().map(|c| c.len_utf8()).unwrap_or(1);
+                    if cnt > 1 {
+                        break;
+                    }
+                }
+                if cnt > 1 {
+                    dup.insert(t.clone());
+                }
+            }
         }
         // the display width of the preformatted source line each token sits on: a piece may carry
         // the continuation flag only if its source line does not fit beside the line's prefix
